@@ -151,6 +151,42 @@ def judge_fault(c, out):
     return failed and not fs.log, True
 
 
+# ---------------------------------------------------------------------------------------
+# M-find: discovery of the top-level Manifest (what `gemato verify <dir>` does first) with
+# one fault among its filesystem calls
+
+def make_find(depth):
+    from vf.props import c15
+    chain = c15.make_chain(depth, 2)
+
+    def s_find_fault(v):
+        c = chain(v)
+        c.fs.fault_at = v.int('fault_at', 0, 16)
+        c.fs.fault_errno = F_ERRNOS[v.choice('en', len(F_ERRNOS))]
+        return c
+    return s_find_fault
+
+
+F_ERRNOS = (errno.EACCES, errno.EIO, errno.ELOOP)
+
+
+def run_find_fault(c):
+    from vf.props import c15
+    try:
+        return ('found', c15.run_find(c))
+    except OSError as e:
+        return 'oserror:%s' % e.errno
+
+
+def judge_find_fault(c, out):
+    if c.fs.fault_fired is None:
+        return True, False
+    # an object on the way up could not be inspected or opened: discovery must end with
+    # that error - continuing means the object was treated as absent (a Manifest that is
+    # skipped this way makes verification start from the wrong top-level Manifest)
+    return out == 'oserror:%s' % c.fs.fault_errno, True
+
+
 def conditions(tier):
     cs = []
     for kind in range(1, 6):
@@ -182,6 +218,23 @@ def conditions(tier):
                 bounds='S-nest tree (Manifest, a, b, sub/{Manifest,c,deep/d}), optional '
                        'stray, optional stale file; fault position 0..60 (more than the run '
                        f'issues); errno in {[errno.errorcode[e] for e in M_ERRNOS]}'))
+    for depth in ((1, 2) if full else (1,)):
+        fparts = [(f'p{k}', (False, True)) for k in range(depth + 1)]
+        for fx in partitions(fparts):
+            nm = f'm_find_fault_d{depth}_' + ''.join(str(int(x)) for x in fx.values())
+            # one device, no foreign Manifest file, crossing allowed (C15 varies these)
+            fx = dict(fx, boundary=0, xlevel=depth + 1, own=False, allow_xdev=True)
+            cs.append(make_cond(
+                nm, make_find(depth), run_find_fault, judge_find_fault, fx, timeout=400,
+                group='M-find', real=False,
+                descr='find_top_level_manifest on the chain model of C15 with one OSError '
+                      'injected at a symbolic position among its filesystem calls (stat of '
+                      'a directory, existence/type tests, open and fstat of a Manifest): the '
+                      'error is raised, the object is never treated as absent',
+                bounds=f'chain of {depth + 1} levels, Manifest presence per level '
+                       'partitioned, names, IGNORE kinds and allow_compressed symbolic as '
+                       'in C15, one device; fault position 0..16 (more than the run issues); '
+                       f'errno in {[errno.errorcode[e] for e in F_ERRNOS]}'))
     return cs
 
 
@@ -198,6 +251,7 @@ OUTSIDE = ['faults during save_manifests (the statement covers the scan phase)',
            'descriptor hygiene: verify_path leaks the descriptor on early returns (noted in '
            'DESIGN.md, not covered by the statement)']
 STUBS = ['gemato.verify.os/open/fcntl/hash_file -> one-file environment with fault plan',
+         'gemato.find_top_level.os / open_potentially_compressed_path -> ModelFS (M-find)',
          'ModelFS with a global call counter']
 
 
@@ -234,4 +288,20 @@ def validate(seed, tier):
             finally:
                 t.close()
     details.append({'object': 'self-referencing symlink (ELOOP)', 'cases': 9})
+    # discovery: the Manifest above the verified sub-directory cannot be opened
+    t = RealTree()
+    try:
+        t.write('sub/c', b'ccc')
+        t.write('sub/Manifest', b'')
+        rc, out = gemato('update', '-H', 'MD5', os.path.join(t.root, 'sub'))
+        os.symlink('Manifest', os.path.join(t.root, 'Manifest'))
+        rc, out = gemato('verify', os.path.join(t.root, 'sub'))
+        if rc == 0:
+            errs.append('verify of a sub-directory exited 0 although the Manifest above it '
+                        'cannot be opened (ELOOP)')
+        else:
+            agree += 1
+    finally:
+        t.close()
+    details.append({'object': 'unopenable Manifest above the verified directory', 'cases': 1})
     return agree, details, errs
